@@ -66,7 +66,9 @@ G8 == [g : {"cycnest"}, outer : 1..3, len : 1..L, nvals : 2..3, grouped : BOOLEA
 G10 == [g : {"cycmix"}, len : 1..L, n1 : 1..3, n2 : 1..3, grouped : BOOLEAN]
 G9 == {x \in [g : {"rowsig"}, len : 1..4, cols : {None, 1, 2, 3}, at : 1..4, sig : {"break", "continue"}] :
          x.at <= x.len /\ (x.sig = "continue" \/ x.at = x.len \/ (x.cols # None /\ x.at % x.cols = 0))}
-Cases == G1 \cup G2 \cup G3 \cup G4 \cup G5 \cup G6 \cup G7 \cup G8 \cup G9 \cup G10
+\* a map whose keys are of different kinds and look alike when printed (the number 1 and the text "1"): every pair once
+G11 == [g : {"mixmap"}, tag : {"for", "tablerow"}, rev : BOOLEAN]
+Cases == G11 \cup G1 \cup G2 \cup G3 \cup G4 \cup G5 \cup G6 \cup G7 \cup G8 \cup G9 \cup G10
 
 \* a modifier is written as a literal or as a variable holding the number
 OV == <<111, 102>>
@@ -115,6 +117,9 @@ ProgOf(x) ==
                  body |-> <<cyc>> \o (IF x.twice THEN <<cyc>> ELSE <<>>) \o (IF x.grouped THEN <<other>> ELSE <<>>)],
                 \* a second loop starts its cycles afresh
                 [t |-> "for", tag |-> "for", var |-> X, coll |-> Var(A), lim |-> Lit(IntV(2)), body |-> <<cyc>>] >>
+    [] x.g = "mixmap" ->
+         << [t |-> "for", tag |-> x.tag, var |-> X, coll |-> Var(A), body |-> <<Ob([t |-> "idx", e |-> Var(X), i |-> Lit(IntV(1))]), T(<<44>>)>>]
+            @@ (IF x.rev THEN [rev |-> TRUE] ELSE <<>>) >>
     [] x.g = "cycmix" ->
          LET grp == IF x.grouped THEN [group |-> <<103>>] ELSE <<>>
              UVals == << <<117>>, <<118>>, <<119>> >>
@@ -140,6 +145,7 @@ EnvOf2(x) ==
   CASE x.g = "grid" /\ x.asvar -> << <<A, Arr(Ints(x.len))>>, <<X, Str(<<111>>)>>, <<OV, IntV(IF x.off = None THEN 0 ELSE x.off)>>, <<LV, IntV(IF x.lim = None THEN 0 ELSE x.lim)>> >>
     [] x.g = "range" /\ x.asvar -> << <<OV, IntV(x.lo)>>, <<<<104, 105>>, IntV(x.hi)>> >>
     [] x.g \in {"grid", "signal", "tablerow", "cycle", "cycnest", "rowsig", "cycmix"} -> << <<A, Arr(Ints(x.len))>>, <<X, Str(<<111>>)>> >>
+    [] x.g = "mixmap" -> << <<A, MapV(<< <<<<105, 58, 49>>, IntV(1)>>, <<<<115, 58, 49>>, IntV(2)>>, <<<<115, 58, 120>>, IntV(3)>> >>)>> >>
     [] x.g = "coll" -> (CASE x.coll = "nil" -> << <<A, Nil>> >>
                           [] x.coll = "undef" -> <<>>
                           [] x.coll = "empty" -> << <<A, Arr(<<>>)>> >>
@@ -194,6 +200,11 @@ DeclOut(x) ==
                         \o TdOpen(((k - 1) % cols) + 1) \o (IF k = x.at THEN <<>> ELSE IntText(k)) \o TdClose
                         \o (IF k % cols = 0 \/ k = n THEN TrClose ELSE <<>>)
          IN  Flatten([k \in 1..last |-> cell(k)]) \o <<124, 111>>
+    [] x.g = "mixmap" ->
+         LET ord == IF x.rev THEN <<3, 2, 1>> ELSE <<1, 2, 3>>
+             cell(k) == IF x.tag = "for" THEN IntText(ord[k]) \o <<44>>
+                        ELSE (IF k = 1 THEN TrOpen(1) ELSE <<>>) \o TdOpen(k) \o IntText(ord[k]) \o <<44>> \o TdClose \o (IF k = 3 THEN TrClose ELSE <<>>)
+         IN  Flatten([k \in 1..3 |-> cell(k)])
     [] x.g = "coll" ->
          (CASE x.coll \in {"nil", "undef", "empty", "map0", "nilmap", "nilslice", "nilptr", "dropnil", "dropempty"} -> <<69>>
             [] x.coll = "map1" -> <<91, 107, 58>> \o IntText(1) \o <<58>> \o IntText(1) \o <<93>>
@@ -249,7 +260,8 @@ RestoredOutside ==
 StepBound == st.steps <= 40 * (L + 3) * 4
 
 IdOf(x) ==
-  CASE x.g = "grid" -> "grid-" \o ToString(x.len) \o "-" \o ToString(x.off) \o "-" \o ToString(x.lim) \o "-" \o ToString(x.rev) \o "-" \o ToString(x.asvar)
+  CASE x.g = "mixmap" -> "mixmap-" \o x.tag \o "-" \o ToString(x.rev)
+    [] x.g = "grid" -> "grid-" \o ToString(x.len) \o "-" \o ToString(x.off) \o "-" \o ToString(x.lim) \o "-" \o ToString(x.rev) \o "-" \o ToString(x.asvar)
     [] x.g = "signal" -> "sig-" \o ToString(x.len) \o "-" \o x.sig \o "-" \o ToString(x.at) \o "-" \o ToString(x.rev)
                          \o "-" \o ToString(x.off) \o "-" \o ToString(x.lim)
     [] x.g = "range" -> "range-" \o ToString(x.lo) \o "-" \o ToString(x.hi) \o "-" \o ToString(x.rev) \o "-" \o ToString(x.lim) \o "-" \o ToString(x.asvar)
@@ -269,7 +281,8 @@ EmitCase == st.status # "run" =>
             PrintT(ToJson([id |-> "cr-" \o IdOf(c), kind |-> "render", prog |-> ProgOf(c), env |-> EnvOf2(c),
                            repr |-> [a |-> CollReprs[(Len(IdOf(c)) % 6) + 1]]]))
        /\ PrintT(ToJson([id |-> IdOf(c), kind |-> "render", prog |-> ProgOf(c), env |-> EnvOf2(c),
-                         anyorder |-> IF c.g = "coll" /\ c.coll = "map3" THEN 3 ELSE 0]
+                         anyorder |-> IF (c.g = "coll" /\ c.coll = "map3") \/ c.g = "mixmap" THEN 3 ELSE 0]
+                        @@ (IF c.g = "mixmap" THEN [repr |-> [a |-> "mixedkeys"]] ELSE <<>>)
                         \* a nil or empty collection in its typed Go forms
                         @@ (IF c.g = "coll" /\ c.coll \in {"nilmap", "nilslice", "nilptr", "dropnil", "dropempty"}
                             THEN [repr |-> [a |-> IF c.coll \in {"dropnil", "dropempty"} THEN "drop" ELSE c.coll]] ELSE <<>>)))
